@@ -2,6 +2,7 @@ package main
 
 import (
 	"fmt"
+	"go/constant"
 	"go/token"
 	"go/types"
 	"strings"
@@ -169,8 +170,111 @@ func concatAlternatives(v ssa.Value, depth int) [][]ssa.Value {
 			out = append(out, concatAlternatives(e, depth+1)...)
 		}
 		return out
+	case *ssa.Call:
+		// fmt.Sprintf with a constant format: the literal pieces and the formatted operands, in order
+		if comps, ok := sprintfComponents(x); ok {
+			out := [][]ssa.Value{{}}
+			for _, comp := range comps {
+				var next [][]ssa.Value
+				for _, alt := range concatAlternatives(comp, depth+1) {
+					for _, pre := range out {
+						next = append(next, append(append([]ssa.Value{}, pre...), alt...))
+					}
+				}
+				out = next
+			}
+			return out
+		}
 	}
 	return [][]ssa.Value{{v}}
+}
+
+// synthDigits stands for the decimal digits of an integer value (what %d writes).
+type synthDigits struct{ of ssa.Value }
+
+func (d *synthDigits) Name() string                  { return "digits" }
+func (d *synthDigits) String() string                { return "digits(" + d.of.Name() + ")" }
+func (d *synthDigits) Type() types.Type              { return types.Typ[types.String] }
+func (d *synthDigits) Parent() *ssa.Function         { return d.of.Parent() }
+func (d *synthDigits) Referrers() *[]ssa.Instruction { return nil }
+func (d *synthDigits) Pos() token.Pos                { return d.of.Pos() }
+
+// sprintfComponents: fmt.Sprintf(constant format, operands...) as a list of
+// string components.  Verbs understood: %s %v (strings), %d (integers; flags
+// and widths that cannot add characters other than digits/sign are accepted:
+// "-" and "+" and "0"; a width pads with blanks or zeros and is refused), %%.
+func sprintfComponents(call *ssa.Call) ([]ssa.Value, bool) {
+	obj := calleeObj(&call.Call)
+	if obj == nil || obj.Pkg() == nil || obj.Pkg().Path() != "fmt" || obj.Name() != "Sprintf" || len(call.Call.Args) != 2 {
+		return nil, false
+	}
+	format, ok := constString(call.Call.Args[0])
+	if !ok {
+		return nil, false
+	}
+	args := variadicElemsOrdered(call.Call.Args[1])
+	strT := types.Typ[types.String]
+	lit := func(s string) ssa.Value { return ssa.NewConst(constant.MakeString(s), strT) }
+	var out []ssa.Value
+	cur := ""
+	ai := 0
+	for i := 0; i < len(format); i++ {
+		if format[i] != '%' {
+			cur += string(format[i])
+			continue
+		}
+		i++
+		if i >= len(format) {
+			return nil, false
+		}
+		if format[i] == '%' {
+			cur += "%"
+			continue
+		}
+		// flags
+		for i < len(format) && (format[i] == '-' || format[i] == '+' || format[i] == '#') {
+			i++
+		}
+		if i >= len(format) || (format[i] >= '0' && format[i] <= '9') || format[i] == '.' || format[i] == '*' || format[i] == ' ' {
+			return nil, false // width / precision / padding: not a plain rendering
+		}
+		if ai >= len(args) {
+			return nil, false
+		}
+		arg := args[ai]
+		ai++
+		if mi, ok := arg.(*ssa.MakeInterface); ok {
+			arg = mi.X
+		}
+		if cur != "" {
+			out = append(out, lit(cur))
+			cur = ""
+		}
+		switch format[i] {
+		case 's', 'v':
+			if b, ok := arg.Type().Underlying().(*types.Basic); ok && b.Info()&types.IsString != 0 {
+				out = append(out, arg)
+			} else if ok && b.Info()&types.IsInteger != 0 && format[i] == 'v' {
+				out = append(out, &synthDigits{of: arg})
+			} else {
+				return nil, false
+			}
+		case 'd':
+			if !isIntegerType(arg.Type()) {
+				return nil, false
+			}
+			out = append(out, &synthDigits{of: arg})
+		default:
+			return nil, false
+		}
+	}
+	if cur != "" {
+		out = append(out, lit(cur))
+	}
+	if ai != len(args) {
+		return nil, false
+	}
+	return out, true
 }
 
 func describeConcat(comps []ssa.Value) string {
@@ -190,6 +294,9 @@ func describeConcat(comps []ssa.Value) string {
 // isDigitsOf: comp is strconv.Itoa/FormatInt/FormatUint(x, 10) or fmt.Sprint-free
 // decimal rendering; returns x.
 func isDigitsOf(comp ssa.Value) ssa.Value {
+	if d, ok := comp.(*synthDigits); ok {
+		return d.of
+	}
 	call, ok := comp.(*ssa.Call)
 	if !ok {
 		return nil
